@@ -18,9 +18,30 @@ ASSUME = ["phases are affine forms over two symbols; the exact derivative A + pi
           "entry by entry with sympy (DisCoPy's own subs/lambdify are C14's subject)",
           "grad raising NotImplementedError (parameter shift of multi-qubit rotations) is a refusal: no formal sum is "
           "returned, nothing is claimed; the evidence counts refusals",
-          "jacobians over one variable (pure and default mode) and over both variables (default mode) are compared with the stacked exact derivatives; tensor diagrams with symbolic boxes and bubbles are not covered by this check yet"]
+          "square-root scalars (gates.Sqrt) are covered by a family of circuits evaluated where the value under the root is a power of two", "jacobians over one variable (pure and default mode) and over both variables (default mode) are compared with the stacked exact derivatives; tensor diagrams with symbolic boxes and bubbles are not covered by this check yet"]
 CONST = {"quick": {"PMaxLayers": 2, "replay": 150}, "thorough": {"PMaxLayers": 3, "replay": 1000}}
 POINTS = [[1, 3], [2, 5], [0, 4], [7, 2]]
+
+
+def sqrt_family():
+    """circuits that depend on a symbol through a square-root scalar (gates.Sqrt), at points where the value under the
+    root is a power of two (so that the root and its derivative lie in the exact ring); (circuit, symbol, point)"""
+    from harness.checks.c13 import _mg
+
+    def P(k, c0, cx, cy, **kw):
+        return dict(_mg(k, **kw), par=1, pf={"c0": c0, "cx": cx, "cy": cy})
+    out = []
+    roots = [(P("sqrt", 0, 2, 0), "x", [[1, 3], [2, 5], [4, 1]]),        # sqrt(2x): 1/2, 1/sqrt2, 1
+             (P("sqrt", 1, 0, 1), "y", [[2, 1], [5, 3], [0, 7]]),        # sqrt(y + 1/8)
+             (P("sqrt", 0, 1, 1), "x", [[1, 1], [3, 1], [1, 7]])]        # sqrt(x + y)
+    rots = [[], [P("Rx", 0, 0, 1)], [P("Rz", 1, 1, 0), _mg("H")], [P("Ry", 0, 1, 1)]]
+    for root, v, pts in roots:
+        for tail in rots:
+            for pt in pts:
+                layers = [{"g": root, "off": 0}] + [{"g": g, "off": 0} for g in tail]
+                out.append(({"ty": ["q"], "layers": layers}, v, pt))
+                out.append(({"ty": ["q"], "layers": layers[1:] + layers[:1]}, v, pt))
+    return out
 
 
 def VC():
@@ -150,6 +171,8 @@ def run(tier, seed, t0):
         n_all = len(pcs)
         sample = pcs if len(pcs) <= c["replay"] else rnd.sample(pcs, c["replay"])
         items = [(pc, rnd.choice(["x", "y"]), rnd.choice(POINTS), k % 3 == 0) for k, pc in enumerate(sample)]
+        fam = sqrt_family()
+        items += [(pc, v, pt, k % 4 == 0) for k, (pc, v, pt) in enumerate(fam if tier != "quick" else fam[::3])]
         with mp.get_context("fork").Pool(16) as pool:
             obs = pool.map(observe, items, chunksize=2)
         rows = [{"pc": pc, "v": v, "pt": pt} for pc, v, pt, _ in items]
